@@ -128,3 +128,58 @@ Proof.
     rewrite Hv. discriminate.
 Qed.
 End Stale3H.
+
+(* ------------------------------------------------------------------ the four min_version-only requests, per handle *)
+(* what they need is only that the file sets ON THE CHAIN OF THE HANDLE are empty (DetFiles asks it of every detached
+   chain); this is what remove / move clear (fix 6db19c9), and what is still to be carried across OpLoad *)
+Definition ChainFiles (w : world) (h : id) : Prop :=
+  forall y n, AncS w y h -> w_nodes w y = Some n -> n_files n = [].
+
+Lemma DetFiles_ChainFiles w h : DetFiles w -> Detached w h -> ChainFiles w h.
+Proof. intros D Hd y n Ha Hn. eapply D; eauto. Qed.
+
+Lemma file_membership_chain w x r w' :
+  ChainFiles w x -> Detached w x -> file_membership x w = Val (r, w') -> w' = w /\ r = ER ItemDeleted.
+Proof.
+  intros Hc Hd H. unfold file_membership in H. wstep H; winv E. eapply fm_walk_detached; eauto.
+Qed.
+Lemma min_version_chain LATEST w x r w' :
+  ChainFiles w x -> Detached w x -> min_version LATEST x w = Val (r, w') -> w' = w /\ r = ER ItemDeleted.
+Proof.
+  intros Hc Hd H. unfold min_version in H. wstep H.
+  - destruct (file_membership_chain _ _ _ _ Hc Hd E) as (_ & [=]).
+  - destruct (file_membership_chain _ _ _ _ Hc Hd E) as (_ & [= ->]). auto.
+Qed.
+
+Section Stale3C.
+Variable T : tables.
+Variable tab_el tab_en : nametab.
+Variable check_fn : N -> list N -> res bool.
+Variable LATEST : N.
+Variable root_attrs : list (N * cdata).
+Notation run := (Inv.run T tab_el tab_en check_fn LATEST root_attrs).
+
+Theorem stale_fails_chain o h w r w' :
+  (needs_version_only o = true -> ChainFiles w h) ->
+  Detached w h -> principal o = Some h -> place_dependent o = true ->
+  run o w = Val (r, w') -> w' = w /\ failed r.
+Proof.
+  intros Hc Hd Hp Hpd H.
+  destruct (needs_version_only o) eqn:Hv.
+  2:{ eapply (stale_fails T tab_el tab_en check_fn LATEST root_attrs o h w r w'); eauto. rewrite Hv. discriminate. }
+  specialize (Hc eq_refl). unfold Inv.run in H.
+  assert (G : forall A (k : N -> W A) r0 w0, (do v <- min_version LATEST h; k v)%W w = Val (r0, w0) -> w0 = w /\ failed r0).
+  { intros A k r0 w0 E. apply wbind_inv in E as [(v & w1 & E1 & _) | (e & E1 & ->)].
+    - destruct (min_version_chain _ _ _ _ _ Hc Hd E1) as (_ & [=]).
+    - destruct (min_version_chain _ _ _ _ _ Hc Hd E1) as (-> & _). split; [reflexivity|eexists; reflexivity]. }
+  destruct o; try discriminate Hv; injection Hp as ->; cbn [run_op] in H;
+    first [ apply stale_elem_op in H; [exact H|] | apply stale_unit_op in H; [exact H|] ];
+    clear H; intros r0 w0 H.
+  - unfold e_create_sub_element in H. eapply G; eauto.
+  - unfold e_create_sub_element_at in H. eapply G; eauto.
+  - unfold e_set_attribute in H. eapply G; eauto.
+  - unfold e_get_or_create_sub_element in H.
+    exact (G _ (fun v => (do s <- get_sub_element h name;
+                          match s with Some c => wret c | None => raw_create_sub_element T h name v end)%W) _ _ H).
+Qed.
+End Stale3C.
